@@ -135,6 +135,7 @@ type Call struct {
 	B  int    `json:"b"`
 	S  string `json:"s"`
 	R  [][]int `json:"r"` // attach / terminate_instances: the instance numbers as maximal consecutive runs [lo, hi]
+	T  int     `json:"-"` // virtual tick at which the call completed (time can pass inside a scan: slow cloud calls)
 }
 
 // Fault names one failing operation: (op, target).
